@@ -104,5 +104,116 @@ impl CharacterMutator {
 //@endfn
 }
 
+// ---------------------------------------------------------------------------------------------------
+// TypeConfusionMutator (unsafe only): replaces a just-emitted value-pushing opcode by one complete
+// value-pushing opcode of a different kind.
+#[derive(Clone, Copy, PartialEq, Eq, Structural)]
+//@item src/mutators/typeconfusion.rs enum StackType
+//@item src/mutators/typeconfusion.rs struct TypeConfusionMutator
+//@item src/mutators/mod.rs struct EmissionSnapshot
+
+/// kind class of a value-pushing opcode byte per the statement of C16 (0 = not value pushing);
+/// hand-written from the opcode table, not from typeconfusion.rs
+pub open spec fn class_of(b: u8) -> int {
+    if b == 0x49 || b == 0x4a || b == 0x4b || b == 0x4d || b == 0x4c || b == 0x8a || b == 0x8b { 1 }
+    else if b == 0x46 || b == 0x47 { 2 }
+    else if b == 0x53 || b == 0x56 || b == 0x8c || b == 0x58 || b == 0x8d { 3 }
+    else if b == 0x42 || b == 0x43 || b == 0x8e || b == 0x54 || b == 0x55 { 4 }
+    else if b == 0x5d || b == 0x6c { 5 }
+    else if b == 0x29 || b == 0x74 || b == 0x85 || b == 0x86 || b == 0x87 { 6 }
+    else if b == 0x7d || b == 0x64 { 7 }
+    else if b == 0x4e { 8 }
+    else if b == 0x88 || b == 0x89 { 9 }
+    else { 0 }
+}
+pub open spec fn class_num(t: StackType) -> int {
+    match t {
+        StackType::Int => 1, StackType::Float => 2, StackType::String => 3, StackType::Bytes => 4, StackType::List => 5,
+        StackType::Tuple => 6, StackType::Dict => 7, StackType::None => 8, StackType::Bool => 9,
+    }
+}
+/// one complete value-pushing opcode of class k (classes never contain EXT / buffer / FRAME opcodes)
+pub open spec fn replacement_ok(rep: Seq<u8>, k: int) -> bool {
+    k != 0 && rep.len() >= 1 && class_of(rep[0]) == k && enc_ok(ref_op_of_byte(rep[0]), rep)
+}
+
+impl OpcodeKind {
+//@fn src/opcodes.rs OpcodeKind::as_u8
+//@ret r
+//@props C04 C16 C09
+//@contract
+    ensures r as int == ref_code(self),
+//@endfn
+}
+
+#[verifier::external_body]
+pub fn vf_confused_str() -> (r: VfText)
+    ensures r.bytes().len() == 8
+{ unimplemented!() }
+#[verifier::external_body]
+pub fn vf_confused_bytes() -> (r: VfText)
+    ensures r.bytes().len() == 8
+{ unimplemented!() }
+
+impl TypeConfusionMutator {
+//@fn src/mutators/typeconfusion.rs TypeConfusionMutator::opcode_to_type
+//@vis pub
+//@ret r
+//@props C16 C09
+//@contract
+    ensures
+        class_of(opcode_byte) == 0 ==> r is None, // @C16
+        class_of(opcode_byte) != 0 ==> r is Some && class_num(r->Some_0) == class_of(opcode_byte), // @C16
+//@endfn
+
+//@fn src/mutators/typeconfusion.rs TypeConfusionMutator::choose_wrong_type
+//@vis pub
+//@ret r
+//@props C16 C09
+//@rewrite R15 StackType
+//@subst Vec<_> => Vec<StackType>
+//@contract
+    ensures r != original, // @C16
+//@loop 1
+            invariant
+                vf_i <= all_types@.len(), all_types@.len() == 9,
+                all_types@[0] == StackType::Int && all_types@[1] == StackType::Float,
+                forall|j: int| 0 <= j < vf_out@.len() ==> #[trigger] vf_out@[j] != original,
+                vf_i >= 1 && original != StackType::Int ==> vf_out@.len() >= 1,
+                vf_i >= 2 && original == StackType::Int ==> vf_out@.len() >= 1,
+            decreases all_types@.len() - vf_i,
+//@endfn
+
+//@fn src/mutators/typeconfusion.rs TypeConfusionMutator::generate_opcode_for_type
+//@vis pub
+//@ret r
+//@props C16 C04 C10 C09
+//@subst source.gen_i32().to_le_bytes() => vf_i32_to_le_bytes(source.gen_i32())
+//@subst source.gen_f64().to_be_bytes() => vf_f64_to_be_bytes(source.gen_f64())
+//@subst let s = "confused"; => let s = vf_confused_str();
+//@subst s.len() as u8 => s.as_bytes().len() as u8
+//@subst let data = b"confused"; => let vf_data = vf_confused_bytes(); let data = vf_data.as_bytes();
+//@contract
+    ensures replacement_ok(r@, class_num(stack_type)), // @C16 @C04 @C10
+//@endfn
+
+//@fn src/mutators/typeconfusion.rs TypeConfusionMutator::post_process
+//@vis pub
+//@ret fired
+//@props C15 C16 C04 C06 C10 C09
+//@contract
+    requires
+        snapshot.output_len <= old(output)@.len(),
+    ensures
+        !self.unsafe_mode ==> !fired, // @C16
+        vf_rate_zero(rate) ==> !fired, // @C15
+        !fired ==> final(output)@ == old(output)@, // @C15 @C06
+        vf_rate_one(rate) && self.unsafe_mode && snapshot.output_delta@.len() > 0 && class_of(snapshot.output_delta@[0]) != 0 ==> fired, // @C15
+        fired ==> snapshot.output_delta@.len() > 0 && class_of(snapshot.output_delta@[0]) != 0, // @C16
+        fired ==> exists|rep: Seq<u8>, k: int| final(output)@ == old(output)@.take(snapshot.output_len as int) + rep
+            && #[trigger] replacement_ok(rep, k) && k != class_of(snapshot.output_delta@[0]), // @C16 @C04 @C06 @C10
+//@endfn
+}
+
 } // verus!
 fn main() {}
